@@ -92,14 +92,16 @@ def execute(cases, out, timeout_ms=20000, dom_max=20000):
 TLC_STATS = re.compile(r'(\d+) states generated, (\d+) distinct states found')
 
 
-def run_tlc(module_dir, module, cfg, env=None, workers=1, heap='3g', timeout=3600, simulate=None, depth=None, extra=None):
+def run_tlc(module_dir, module, cfg, env=None, workers=1, heap='3g', timeout=3600, simulate=None, depth=None, extra=None, jit='c1'):
     meta = os.path.join(WORK, 'tlcmeta', '%s_%d_%d' % (module, os.getpid(), int(time.time() * 1e6) % 10**9))
     os.makedirs(meta, exist_ok=True)
     e = dict(os.environ)
     e['JAVA_TOOL_OPTIONS'] = '-Xss1g -Dtlc2.tool.queue.IStateQueue=StateDeque' if workers == 1 else '-Xss1g'
     if env:
         e.update(env)
-    args = ['java', '-XX:+UseParallelGC', '-Xmx' + heap, '-cp', JARS, '-DTLA-Library=' + SPEC + ':' + os.path.join(SPEC, 'mc') + ':' + os.path.join(SPEC, 'trace'),
+    # C1-only JIT: in this sandbox C2 compiler threads of parallel JVMs contend badly (10x wall on short runs)
+    jitopts = ['-XX:TieredStopAtLevel=1'] if jit == 'c1' else ['-XX:CICompilerCount=2']
+    args = ['java', '-XX:+UseParallelGC', '-XX:ParallelGCThreads=%d' % (2 if workers == 1 else 4)] + jitopts + ['-Xmx' + heap, '-cp', JARS, '-DTLA-Library=' + SPEC + ':' + os.path.join(SPEC, 'mc') + ':' + os.path.join(SPEC, 'trace'),
             'tlc2.TLC', '-workers', str(workers), '-metadir', meta, '-cleanup', '-noGenerateSpecTE', '-config', cfg]
     if simulate:
         args += ['-simulate', 'num=%d' % simulate]
